@@ -366,3 +366,94 @@ Definition C20m_check (c : C20m_case) : verdict :=
       | None => OK
       end
   end.
+
+(* ---- restart with an unsynced ControllerRevision cache (leg C09m of property C09) ------------ *)
+
+Inductive c9ev :=
+| C9Hook                                                    (* a sync hook call *)
+| C9RevWrite (verb name : string) (children : list string)  (* create/update/delete of a ControllerRevision and the children it records *)
+| C9ChildWrite (verb name : string)                         (* create/update/delete/patch of a rolling child *)
+| C9Other (verb kind : string).                             (* any other write (parent status) *)
+
+Record C09m_case := mkC09m {
+  k_latest : string;                                  (* the image the parent asks for at the restart *)
+  k_children : list string;                           (* the rolling children *)
+  k_outcome_unsynced : outcome;                       (* Reconcile of the CompositeController while the informer had not synced *)
+  k_running_unsynced : bool;                          (* a hosted controller was in the map afterwards *)
+  k_before : list c9ev;                               (* what was done before the informer synced *)
+  k_revs_unsynced : list (string * list string);      (* the store at the end of that window: revision -> recorded children *)
+  k_outcome_synced : outcome;                         (* the retried Reconcile after the informer synced *)
+  k_running_synced : bool;
+  k_after : list c9ev;                                (* what was done from then on, until nothing moved any more *)
+  k_revs_final : list (string * list string);
+  k_images_final : list (string * string)             (* child -> image *)
+}.
+
+Definition is_hook (e : c9ev) : bool := match e with C9Hook => true | _ => false end.
+
+(* the children written (content) in each sync: a sync starts with a run of hook calls *)
+Fixpoint moved_per_sync (evs : list c9ev) (prev_hook : bool) (cur : list string) (acc : list (list string)) : list (list string) :=
+  match evs with
+  | [] => (cur :: acc)
+  | C9Hook :: rest => if prev_hook then moved_per_sync rest true cur acc
+                      else moved_per_sync rest true [] (cur :: acc)
+  | C9ChildWrite _ n :: rest => moved_per_sync rest false (if memb n cur then cur else n :: cur) acc
+  | _ :: rest => moved_per_sync rest false cur acc
+  end.
+
+Definition at_most_one_per_sync (evs : list c9ev) : bool :=
+  forallb (fun l => Nat.leb (List.length l) 1) (moved_per_sync evs false [] []).
+
+Definition recorded_twice (revs : list (string * list string)) : bool :=
+  negb (nodupb (flat_map snd revs)).
+
+Definition c9_spec : spec :=
+  mkSpec 1 [mkRule "things.ctl.example.com/v1" true false true] [mkRule "pods.v1" true true true]
+         (Some (mkHooks (HookWebhook (mkWh true None false TmoUnset EtagUnset)) HookAbsent HookAbsent)).
+
+(* all failing clauses: the first names the verdict, the others follow after "@" *)
+Fixpoint all_fail (l : list (string * bool)) : list string :=
+  match l with
+  | [] => []
+  | (n, b) :: l' => if b then all_fail l' else n :: all_fail l'
+  end.
+Definition join_clauses (l : list string) : option string :=
+  match l with
+  | [] => None
+  | [n] => Some n
+  | n :: rest => Some (n ++ "@" ++ String.concat "," rest)
+  end.
+
+Definition C09m_check (c : C09m_case) : verdict :=
+  match join_clauses (all_fail [
+      (* a parent was synced (hook call or write) before the ControllerRevision cache had synced *)
+      ("synced-before-revision-cache", match k_before c with [] => true | _ => false end);
+      (* a rollout moves one child per sync *)
+      ("children-moved-at-once", at_most_one_per_sync (k_before c) && at_most_one_per_sync (k_after c));
+      (* every rolling child is recorded by at most one revision *)
+      ("child-recorded-by-two-revisions", negb (recorded_twice (k_revs_unsynced c)) && negb (recorded_twice (k_revs_final c)));
+      ("started-before-revision-cache", negb (k_running_unsynced c));
+      (* the rollout is carried to its end: every child at the latest image, recorded by the one revision left *)
+      ("rollout-not-finished",
+         forallb (fun n => match zfind n (k_images_final c) with Some i => String.eqb i (k_latest c) | None => false end) (k_children c) &&
+         match k_revs_final c with
+         | [(_, l)] => forallb (fun n => memb n l) (k_children c)
+         | _ => false
+         end)
+    ]) with
+  | Some clause => PROPFAIL clause
+  | None =>
+      let e := GEvent (Reconcile "c" (LFound c9_spec CrdOk)) in
+      let '(g1, out1, _) := gstep Composite ginit e in
+      let '(g2, _, _) := gstep Composite g1 GRevSynced in
+      let '(g3, out3, _) := gstep Composite g2 e in
+      match first_fail [
+          ("outcome-unsynced", outcome_eqb out1 (k_outcome_unsynced c));
+          ("running-unsynced", Bool.eqb (runningb "c" (g_state g1)) (k_running_unsynced c));
+          ("outcome-synced", outcome_eqb out3 (k_outcome_synced c));
+          ("running-synced", Bool.eqb (runningb "c" (g_state g3)) (k_running_synced c))
+        ] with
+      | Some where_ => DIVERGE where_
+      | None => OK
+      end
+  end.
